@@ -361,3 +361,30 @@ func init() {
 		return 0
 	}
 }
+
+func init() {
+	// dbgbatch <scenario>...: harvest the final DAG of each scenario, compare a pass per event with one pass at the end and a pass every 3
+	checks["dbgbatch"] = func(args []string) int {
+		for _, name := range args {
+			sc := sched.ScenarioByName(name)
+			x := sched.NewExec(sc, nil)
+			x.NoDigest = true
+			for _, a := range sc.Seed {
+				x.Step(a)
+			}
+			evs := dag.Harvest(x.C)
+			n := sc.Cfg.N
+			x.Close()
+			ref := dag.Run(evs, dag.RunOpts{N: n, CacheSize: 10000, Bare: true})
+			res := ""
+			for _, b := range []int{-1, 3, 5} {
+				v := dag.Run(evs, dag.RunOpts{N: n, CacheSize: 10000, Bare: true, Batch: b})
+				if k, d := dag.CompareKind(ref, v, true); d != "" {
+					res += fmt.Sprintf(" batch=%d [%s]: %.100s;", b, k, d)
+				}
+			}
+			fmt.Printf("%s: %d events, %d blocks:%s\n", name, len(evs), len(ref.BlockD), res)
+		}
+		return 0
+	}
+}
